@@ -4,6 +4,7 @@ mod calls;
 mod decode;
 mod lex;
 mod libcase;
+mod litcase;
 mod obs;
 mod project;
 mod render;
@@ -74,7 +75,13 @@ fn worker(args: &[String]) -> i32 {
                 CASE_INDEX.store(i as u64, Ordering::SeqCst);
                 CASE_START_MS.store(now_ms(t0), Ordering::SeqCst);
                 let evs = match serde_json::from_str::<Value>(&line) {
-                    Ok(case) => libcase::process(&case),
+                    Ok(case) => {
+                        if case.get("kind").and_then(|k| k.as_str()).map_or(false, |k| k.ends_with("lit")) {
+                            litcase::process(&case)
+                        } else {
+                            libcase::process(&case)
+                        }
+                    }
                     Err(e) => vec![json!({"ev": "ToolError", "msg": format!("bad case json line {}: {}", i, e)})],
                 };
                 CASE_START_MS.store(0, Ordering::SeqCst);
